@@ -21,7 +21,7 @@ def run(ctx):
     bstride = core.NCPU * (16 if quick else 1)
     for k in range(core.NCPU):
         jobs.append({"script": "d_tex.py", "stdin_obj": {
-            "seed": ctx.seed * 131 + k, "single": [stride, (k * (stride // core.NCPU) + ctx.seed) % stride],
+            "seed": ctx.seed * 131 + k, "single": [stride, (k * (stride // core.NCPU) + ctx.seed) % stride], "procs": core.NCPU, "proc": k,
             "blocks": [bstride, (k * (bstride // core.NCPU) + ctx.seed) % bstride, 400],
             "random": (3200 if quick else 64000) // core.NCPU,
             "pairs": [core.NCPU, k, 2 if quick else 15],
